@@ -185,3 +185,23 @@ seed('S-c13d', 'C13', 'codegen.rs inclusive_range_contains: ranges ending in ASC
 seed('S-c14d', 'C14', 'lexgen_util Lexer::peek decodes the lookahead as char::from(first byte of input at the match end) when input is not empty',
      'a &str lexer, an action that uses peek(), and a non-ASCII character right after the match', ['C14'], [],
      'first run inconclusive (str::as_bytes, <[u8]>::get, char::from(u8) on the symbolic string had no model); added: the first byte of the character at a boundary offset as a function of the character. Offsets into the whole input are the lexer\'s absolute byte indices (the symbolic start location included), offsets into a suffix view are relative')
+# ---- round 9
+seed('S-c01e', 'C01', 'regex_to_nfa.rs: OneOrMore loops back to the incoming state and Or starts both alternatives at the incoming state (each harmless alone)',
+     'a `+` that is a direct operand of `|`: x+ | y is compiled as x+ | x* y', ['C01'], [], 'random single-rule-set definitions; 3 roles')
+seed('S-c02e', 'C02', 'regex_to_nfa.rs String arm: "last character" decided by byte offset + 1 == byte length',
+     'a string literal whose last character is multi-byte: it matches nothing', ['C02'], [],
+     'first run missed it (all string literals of the family were ASCII); added string literals with multi-byte characters in first / middle / last position next to their concatenations')
+seed('S-c04e', 'C04', 'codegen.rs: one cloned lookahead iterator is shared by the chain of right-context tests of a state (passed as &mut)',
+     'two right-context rules on the same lexeme, the first context failing after consuming at least one character', ['C04'], [], 'right-context priority family and random context definitions; 7 roles')
+seed('S-c06f', 'C06', 'lexgen_util new_with_state strips a leading U+FEFF from the input (stored input and iterator built from the stripped string)',
+     'a &str lexer whose input starts with U+FEFF: every byte index is 3 too small and the character never reaches the rules', ['C06'], [],
+     'first run inconclusive (str::strip_prefix, and the step harness expected a constructor with one path). The harness now takes the constructor path that leaves the input untouched and reports the paths on which the constructor consumed or skipped characters (aspects dropped / loc / ctor), replayed natively')
+seed('S-c08e', 'C08', 'codegen.rs generate_state: states without character transitions test end of input with peek() instead of next()',
+     'a failure in a state with no character transitions (after text that only `$` can follow, or in an empty rule set) with a character following: it is not consumed and lexed again in Init', ['C08'], [], 'input position after the failing call; 3 roles')
+seed('S-c11e', 'C11', 'range_map.rs insert_ranges: in the arm where both ranges start together and the inserted one is shorter, the rest of the old range is pushed at once (same idea as S-c13c in the mirrored arm)',
+     'a union under `#` where a piece of the left operand overlaps two pieces of the right one', ['C11'], [], 'inductive step on insert_ranges')
+seed('S-c15d', 'C15', 'lexgen_util: a private field exhausted: Rc<Cell<bool>> set when the iterator returns None, consulted by peek(); derive(Clone) shares it between clones',
+     'a clone exists, one lexer reaches the end of the input before the other runs an action that decides on peek()', ['C15'], [],
+     'first run inconclusive (no model of Rc). Added: Rc::{new,clone,deref} with the pointee in the state (clones share it), comparison of the action logs (rule, match_loc, peek) of clone and original - not only of the items -, a run-ahead schedule (the original runs to the end of its stream, then the clone makes its first call) used when clone()/next() touch state outside the lexer value, and a native driver mode for it')
+seed('S-c18d', 'C18', 'char_range_gen: a surrogate inherits the answer of the previous code point, the 0xE000 special case for the range end is dropped',
+     'a predicate true at U+D7FF and false at U+E000: the range ends at U+DFFF (not a scalar value)', ['C18'], [], 'first run inconclusive (Result::map_or with the predicate as function pointer); summary added')
